@@ -753,6 +753,15 @@ class Datatype(Item):
         try:
             for constr in data['constrs']:
                 constr_type = parser.parse_type(constr['type'])
+                # A constructor builds a value of the datatype, and has one
+                # name for each of its arguments.
+                argT, resT = constr_type.strip_type()
+                if resT != TConst(self.name, *(TVar(arg) for arg in self.args)):
+                    raise ItemException("Datatype %s: %s does not construct a value of the datatype" % (
+                        self.name, constr['name']))
+                if len(constr['args']) != len(argT):
+                    raise ItemException("Datatype %s: %s has %d arguments, %d names are given" % (
+                        self.name, constr['name'], len(argT), len(constr['args'])))
                 self.constrs.append({
                     'name': constr['name'],
                     'type': constr_type,
